@@ -547,24 +547,21 @@ void TypeChecker::visitIODecl(iodecl_t& iodecl)
         }
     }
 
+    const bool declaresIO = !iodecl.inputs.empty() || !iodecl.outputs.empty();
+    const bool declaresCSP = !iodecl.csp.empty();
     if (syncUsed == 0) {
-        if (!iodecl.inputs.empty() || !iodecl.outputs.empty()) {
+        if (declaresIO) {
             syncUsed = 1;
-        } else if (!iodecl.csp.empty()) {
+        } else if (declaresCSP) {
             syncUsed = 2;
         }
     }
-    if (syncUsed == 1) {
-        if (!iodecl.csp.empty()) {
-            syncUsed = -1;
-        }
-    } else if (syncUsed == 2) {
-        if (!iodecl.inputs.empty() || !iodecl.outputs.empty()) {
-            syncUsed = -1;
-        }
-    }
-    if (syncUsed == -1) {
+    // report the declaration that deviates from the style in use - here, and not again at every later one
+    if (syncUsed == 1 && declaresCSP) {
         handleError(iodecl.csp.front(), "$CSP_and_IO_synchronisations_cannot_be_mixed");
+    } else if (syncUsed == 2 && declaresIO) {
+        handleError(iodecl.inputs.empty() ? iodecl.outputs.front() : iodecl.inputs.front(),
+                    "$CSP_and_IO_synchronisations_cannot_be_mixed");
     }
 
     document.set_sync_used(syncUsed);
@@ -794,37 +791,12 @@ void TypeChecker::visitEdge(edge_t& edge)
                 }
             }
 
-            switch (syncUsed) {
-            case 0:
-                switch (edge.sync.get_sync()) {
-                case SYNC_BANG:
-                case SYNC_QUE: syncUsed = 1; break;
-                case SYNC_CSP: syncUsed = 2; break;
-                }
-                break;
-            case 1:
-                switch (edge.sync.get_sync()) {
-                case SYNC_BANG:
-                case SYNC_QUE:
-                    // ok
-                    break;
-                case SYNC_CSP: syncUsed = -1; break;
-                }
-                break;
-            case 2:
-                switch (edge.sync.get_sync()) {
-                case SYNC_BANG:
-                case SYNC_QUE: syncUsed = -1; break;
-                case SYNC_CSP:
-                    // ok
-                    break;
-                }
-                break;
-            default:
-                // nothing
-                ;
-            }
-            if (syncUsed == -1) {
+            // The first synchronisation fixes the style of the model (1 = input/output, 2 = CSP). A later one of the
+            // other style is the error of its own edge, not of every edge that follows.
+            const int style = (edge.sync.get_sync() == SYNC_CSP) ? 2 : 1;
+            if (syncUsed == 0) {
+                syncUsed = style;
+            } else if (syncUsed != style) {
                 handleError(edge.sync, "$CSP_and_IO_synchronisations_cannot_be_mixed");
             }
 
